@@ -116,6 +116,10 @@ func (s *serviceAuthenticate) Receive(m *net.Message, from Channel) error {
 	if err != nil {
 		return from.SendError(m, err)
 	}
+	// do not respond to post messages.
+	if m.Header.Type == net.Post {
+		return nil
+	}
 	return from.SendReply(m, response)
 }
 
